@@ -178,6 +178,19 @@ example : glvValidateBalance { token := 10, maxAmount := 100, maxValue := 4999 }
 example : glvMint 999 10000 500 1 = some 49 ∧ glvRedeem 49 10999 549 (2000 : Int) 1000 1 = some 490 := by decide
 
 
+-- added by the hygiene audit
+-- `glv_roundtrip_no_gain` instantiated: ALL seven hypotheses at once (deposit 500 market tokens worth 2 each, mint 49 GLV, redeem them)
+example : (490 : Nat) ≤ 500 :=
+  glv_roundtrip_no_gain (a := 500) (R := 999) (G := 10000) (G' := 10999) (S := 500) (d := 1) (g := 49) (out := 490)
+    (msup := 1000) (pvIn := 2000) (pvOut := 2000) (by decide) (by decide) (by decide) (by decide) (by decide) (by decide) (by decide)
+-- `composition_invariant`: a non-empty GLV satisfying `Composed`, and a successful insert keeping it
+example : Composed (fun t => ⟨t, 1, 2⟩) ⟨1, 2, [{ token := 10 }]⟩ ∧ (∀ t, ((fun t => (⟨t, 1, 2⟩ : GMeta)) t).token = t) := by
+  refine ⟨?_, fun _ => rfl⟩
+  intro e he; simp at he; subst he; exact ⟨rfl, rfl⟩
+-- `init_markets_share_tokens` / `glvMint_spec`: successful validation / mint
+example : (glvValidateInit [⟨10, 1, 2⟩, ⟨11, 1, 2⟩]).isSome = true := by decide
+example : glvMint 999 10000 500 1 = some 49 ∧ (500 : Nat) ≠ 0 := by decide
+
 /-! ## GlvLife — the native GLV deposit / withdrawal life cycles (model `Gmx.GlvLife`, harness `glvlife`)
 
 Theorems over the machine that the real `gmsol_store::entry` is diffed against, for EVERY history of
@@ -263,6 +276,45 @@ theorem glvlife_close_escrow_home (s s' : St) (who : Who) (slot : Nat) (h : clos
   refine ⟨act, h1, h3, acts_setAct_same _ _ _, ?_, ?_, ?_, ?_, rfl, rfl, rfl, rfl, rfl, rfl, rfl, rfl⟩ <;>
     simp [setAct, setUser, User.mt, User.addMt] <;> (by_cases hm : act.m = 0 <;> simp [hm])
 
+/-! GLV shifts (`create_glv_shift → execute_glv_shift → close_glv_shift`) -/
+
+/-- a shift is created only by a keeper, between two different markets of the GLV, for a non-zero amount the GLV
+vault holds, and not before the shift interval since the last executed shift has passed -/
+theorem glvlife_shift_create_guards (s s' : St) (who : Who) (i a b c el : Nat) (h : screate s who i a b c el = some s') :
+    who = .keeper ∧ a ≠ b ∧ c ≠ 0 ∧ c ≤ s.glvVault a ∧ s.lastShiftAt + SHIFT_INTERVAL ≤ s.now ∧
+    s' = setShift s i (some ⟨0, a, b, c, s.now, el⟩) := by
+  obtain ⟨h1, _, _, _, h5, _, h7, h8, h9, h10⟩ := screate_some h
+  exact ⟨h1, h5, h7, h8, h9, h10⟩
+
+/-- a shift is executed only by a keeper and only while PENDING; it COMPLETES only if the shift interval has passed
+and the vault still holds the amount -/
+theorem glvlife_shift_exec_guards (s s' : St) (who : Who) (i fee x paid : Nat) (throw fail : Bool) (o : Outcome)
+    (h : sexec s who i fee throw fail x = some (s', o, paid)) :
+    ∃ sh, s.shifts i = some sh ∧ sh.state = 0 ∧ who = .keeper ∧
+      (o = .completed → s.lastShiftAt + SHIFT_INTERVAL ≤ s.now ∧ sh.amount ≤ s.glvVault sh.src) := by
+  obtain ⟨sh, h1, h2, h3, _, _, hcase⟩ := sexec_some h
+  refine ⟨sh, h1, h2, h3, fun ho => ?_⟩
+  rcases hcase with ⟨hc, _, _⟩ | ⟨_, h4, h5, _⟩
+  · rw [ho] at hc; cases hc
+  · exact ⟨h4, h5⟩
+
+/-- a completed shift only moves market tokens between the GLV's own vaults: `amount` of the source market are
+redeemed (vault, recorded balance and supply go down together), `x` of the destination market are minted into the
+vault (vault, recorded balance and supply go up together); users, escrows, the shared collateral vaults and the GLV
+supply are untouched; the shift clock is set -/
+theorem glvlife_shift_moves_exactly (s s' : St) (i x : Nat) (sh : Shift) (hne : sh.src ≠ sh.dst) (hs : sh.src < 2)
+    (hd : sh.dst < 2) (hv : sh.amount ≤ s.glvVault sh.src) (h : scomplete s i sh x = some s') :
+    s'.glvVault sh.src + sh.amount = s.glvVault sh.src ∧ s'.glvRec sh.src + sh.amount = s.glvRec sh.src ∧
+    s'.mtSupply sh.src + sh.amount = s.mtSupply sh.src ∧
+    s'.glvVault sh.dst = s.glvVault sh.dst + x ∧ s'.glvRec sh.dst = s.glvRec sh.dst + x ∧
+    s'.mtSupply sh.dst = s.mtSupply sh.dst + x ∧
+    s'.users = s.users ∧ s'.acts = s.acts ∧ s'.vaultLong = s.vaultLong ∧ s'.vaultShort = s.vaultShort ∧
+    s'.glvMinted = s.glvMinted ∧ s'.glvBurned = s.glvBurned ∧ s'.lastShiftAt = s.now := by
+  obtain ⟨h1, h2, rfl⟩ := scomplete_some h
+  have hcases : (sh.src = 0 ∧ sh.dst = 1) ∨ (sh.src = 1 ∧ sh.dst = 0) := by omega
+  rcases hcases with ⟨ha, hb⟩ | ⟨ha, hb⟩ <;>
+    simp [setShift, glvIn, glvOut, mintMt, burnMt, St.glvVault, St.glvRec, St.mtSupply, ha, hb] at * <;> omega
+
 /-! non-vacuity: a GLV deposit of market tokens + collateral, executed and closed, then a withdrawal -/
 example : (run (init 10000 5000 1700000000) glHist).2 =
     [.none, .none, .created 0, .executed 0 .completed, .closed 0, .created 2, .executed 2 .completed, .closed 2] := by decide
@@ -270,6 +322,13 @@ example : ((run (init 10000 5000 1700000000) glHist).1.glvVault0, (run (init 100
     glvSupply (run (init 10000 5000 1700000000) glHist).1, ((run (init 10000 5000 1700000000) glHist).1.users 0).glv) =
     (310, 310, 250, 250) := by decide
 example : (exec (run (init 10000 5000 1700000000) (glHist.take 4)).1 .keeper 0 0 false false 1 1 1).isNone = true := by decide
+
+-- added by the hygiene audit: `glvlife_cancel_keeps_escrow` — an execution that is CANCELLED (the action fails, no throw)
+example : (exec (run (init 10000 5000 1700000000) (glHist.take 3)).1 .keeper 0 0 false true 1 1 1).map (fun r => r.2.1) =
+    some .cancelled := by decide
+
+example : ((run (init 10000 5000 1700000000) (glHist.take 5 ++ [.screate .keeper 0 0 1 200 0, .sexec .keeper 0 0 true false 190])).1.glvVault0,
+    (run (init 10000 5000 1700000000) (glHist.take 5 ++ [.screate .keeper 0 0 1 200 0, .sexec .keeper 0 0 true false 190])).1.glvRec1) = (260, 190) := by decide
 
 end GlvLife
 
